@@ -1,4 +1,6 @@
 fn main() {
+    // Verification hooks are guarded by `--cfg jgilchrist_tcheran_verif` (off by default)
+    println!("cargo::rustc-check-cfg=cfg(jgilchrist_tcheran_verif)");
     build_fathom();
 }
 
